@@ -19,11 +19,7 @@ TOL_XE = 1e-6       # electron mole fraction (only compared above XE_FLOOR, the 
 XE_FLOOR = 1e-7
 
 
-def state(args):
-    """-> dict with H, mean molar mass, x_e, or {"solver": reason}"""
-    names, x0, T, P = args
-    sps = [gen.shipped(n) for n in names]
-    m = mpc.mixture.LTE(sps, x0, T, P, 1e20, 1e-10, 1000)
+def measure(m):
     with warnings.catch_warnings(record=True) as w:
         warnings.simplefilter("always")
         try:
@@ -34,7 +30,44 @@ def state(args):
         if any("Minimiser could not find" in str(x.message) for x in w):
             return {"solver": "non-convergence warning"}
     M = np.array([sp.molar_mass for sp in m.species])
-    return {"T": T, "P": P, "H": H, "Mbar": float((nd * M).sum() / nd.sum()), "xe": float(nd[-1] / nd.sum()), "x": (nd / nd.sum()).tolist()}
+    return {"T": m.T, "P": m.P, "H": H, "Mbar": float((nd * M).sum() / nd.sum()), "xe": float(nd[-1] / nd.sum())}
+
+
+def state(args):
+    """one fresh object per state -> dict with H, mean molar mass, x_e, or {"solver": reason}"""
+    names, x0, T, P = args
+    return measure(mpc.mixture.LTE([gen.shipped(n) for n in names], x0, T, P, 1e20, 1e-10, 1000))
+
+
+def ladder_job(args):
+    """a whole ladder: mode "fresh" = one new object per state; otherwise ONE object walked through the ladder by assigning
+    T / P in the given order (a user's parameter sweep), after having been solved once somewhere else in the window"""
+    names, x0, axis, fixed, pts, mode, first = args
+    if mode == "fresh":
+        return [state((names, x0, v, fixed) if axis == "T" else (names, x0, fixed, v)) for v in pts]
+    m = mpc.mixture.LTE([gen.shipped(n) for n in names], x0, first[0], first[1], 1e20, 1e-10, 1000)
+    measure(m)
+    order = list(range(len(pts)))
+    if mode == "desc":
+        order.reverse()
+    elif mode in ("shuffled", "mixed"):
+        random.Random(len(pts) * 7919 + int(fixed)).shuffle(order)
+    out = [None] * len(pts)
+    # only the swept parameter is assigned inside the walk, as a user's sweep would do
+    if axis == "T":
+        m.P = fixed
+    else:
+        m.T = fixed
+    for k in order:
+        if mode == "mixed" and k % 2 == 0:    # every other point on a fresh object: a re-used object must agree with fresh ones
+            out[k] = state((names, x0, pts[k], fixed) if axis == "T" else (names, x0, fixed, pts[k]))
+            continue
+        if axis == "T":
+            m.T = pts[k]
+        else:
+            m.P = pts[k]
+        out[k] = measure(m)
+    return out
 
 
 def species_sets(rng, n):
@@ -91,7 +124,7 @@ def check(run):
     run.cov["rule"] = ("(V1) internal energy of every shipped and random synthetic species along temperature ladders at fixed lowering (the proved clause, on the implementation); "
                        "(V2) shipped oxygen / Si-C-O species sets (random subsets with complete charge chains, random order) and random x0: temperature ladders (1000..25000 K, both "
                        "ends, some pairs 0.1 % apart) at several pressures: enthalpy strictly increasing, mean molar mass not increasing beyond 1e-8; pressure ladders (1e4..1e6 Pa) "
-                       "at several temperatures: mean molar mass not decreasing beyond 1e-8, electron mole fraction (above 1e-7) not increasing beyond 1e-6 relative. Adjacent "
+                       "at several temperatures: mean molar mass not decreasing beyond 1e-8, electron mole fraction (above 1e-7) not increasing beyond 1e-6 relative. Half of the ladders are walked on ONE re-used object (assigning T / P ascending, descending or shuffled after a solve elsewhere; 'mixed' = every other point on a fresh object), the rest on fresh objects. Adjacent "
                        "ladder points are compared (monotone along the ladder = all ordered pairs on it). distinct = (species set, x0, T, P)")
     run.cov["trusted_base"] = common.TRUSTED_COMMON + [
         "PARTIAL: frozen heat capacity, the ideal-mixture pressure response of exact minimisers and the single-ionisation closed form are theorems; the reactive heat capacity, "
@@ -114,27 +147,33 @@ def check(run):
     found = u_ladder(run, rng, thorough, okd, broken)
 
     sets = species_sets(rng, 24 if thorough else 6)
-    jobs, index = [], []
+    jobs = []
     for si, (names, x0, kind) in enumerate(sets):
+        def mode():
+            first = (rng.uniform(1000, 25000), 10 ** rng.uniform(4, 6))
+            return rng.choice(["fresh", "asc", "desc", "shuffled", "mixed", "mixed"]), first
         for P in ([1e4, 1e6] + [10 ** rng.uniform(4, 6) for _ in range(3 if thorough else 1)]):
-            for T in ladder(rng, 1000.0, 25000.0, 60 if thorough else 32, False):
-                jobs.append((names, x0, T, P))
-                index.append(("T", si, P))
+            md, first = mode()
+            jobs.append((names, x0, "T", P, ladder(rng, 1000.0, 25000.0, 60 if thorough else 32, False), md, first))
         for T in ([1000.0, 25000.0] if thorough else []) + [rng.uniform(1000, 25000) for _ in range(8 if thorough else 4)]:
-            for P in ladder(rng, 1e4, 1e6, 24 if thorough else 10, True):
-                jobs.append((names, x0, T, P))
-                index.append(("P", si, T))
+            md, first = mode()
+            jobs.append((names, x0, "P", T, ladder(rng, 1e4, 1e6, 24 if thorough else 10, True), md, first))
     with Pool(16) as pool:
-        results = pool.map(state, jobs, chunksize=8)
-    groups = {}
-    for key, job, r in zip(index, jobs, results):
-        run.count(1, distinct_key=(tuple(job[0]), tuple(job[1]), job[2], job[3]))
-        if "solver" in r:
-            run.cov["states_with_solver_warning"] = run.cov.get("states_with_solver_warning", 0) + 1
-            continue
-        groups.setdefault(key, []).append(r)
+        results = pool.map(ladder_job, jobs, chunksize=1)
+    groups, modes = {}, {}
+    for ji, (job, rs) in enumerate(zip(jobs, results)):
+        names, x0, axis, fixed, pts, md, first = job
+        modes[md] = modes.get(md, 0) + 1
+        si = next(i for i, st in enumerate(sets) if st[0] is names)
+        for v, r in zip(pts, rs):
+            run.count(1, distinct_key=(tuple(names), tuple(x0), axis, fixed, v))
+            if "solver" in r:
+                run.cov["states_with_solver_warning"] = run.cov.get("states_with_solver_warning", 0) + 1
+                continue
+            groups.setdefault((axis, si, fixed, ji, md), []).append(r)
+    run.cov["ladder_modes"] = modes
     margins = {"dH_min_rel": math.inf, "Mbar_T_worst": 0.0, "Mbar_P_worst": 0.0, "xe_P_worst": 0.0}
-    for (axis, si, fixed), rs in groups.items():
+    for (axis, si, fixed, ji, md), rs in groups.items():
         names, x0, kind = sets[si]
         rs.sort(key=lambda r: r["T"] if axis == "T" else r["P"])
         for a, b in zip(rs, rs[1:]):
@@ -155,7 +194,8 @@ def check(run):
                     if b["xe"] > a["xe"] * (1 + TOL_XE):
                         bad = f"electron mole fraction increases with pressure: {a['xe']!r} at {a['P']} Pa, {b['xe']!r} at {b['P']} Pa, T={fixed}"
             if bad and found is None:
-                found = {"kind": "input", "what": f"{kind} set {names}: {bad}", "names": names, "x0": x0,
+                found = {"kind": "input" if md == "fresh" else "history", "what": f"{kind} set {names} ({'fresh objects' if md == 'fresh' else 'one object swept ' + md}): {bad}",
+                         "names": names, "x0": x0, "ladder": list(jobs[ji][1:]),
                          "state1": {"T": a["T"], "P": a["P"]}, "state2": {"T": b["T"], "P": b["P"]}}
     run.cov["margins"] = margins
     run.cov["ladders"] = len(groups)
@@ -170,10 +210,14 @@ def check(run):
 def replay(path):
     d = json.load(open(path))
     print(d.get("what"))
-    if d.get("kind") != "input":
+    if d.get("kind") not in ("input", "history"):
         print(json.dumps(d.get("broken"), indent=1, default=str)[:2000])
         return 1
-    if "names" in d:
+    if d.get("kind") == "history":
+        x0, axis, fixed, pts, md, first = d["ladder"]
+        for r in ladder_job((d["names"], x0, axis, fixed, pts, md, tuple(first))):
+            print(r)
+    elif "names" in d:
         for k in ("state1", "state2"):
             print(k, state((d["names"], d["x0"], d[k]["T"], d[k]["P"])))
     return 1
